@@ -932,4 +932,804 @@ theorem get_none_iff_leafRules {Hs : List Bytes} {s : Router} {S : Spec.State} (
   | none => simp
   | some kv => simpa using h.nonempty ds l kv hg
 
+/-! ### pre / post lists are the Spec's pre / post frontends -/
+
+/-- the pre/post rule a configured frontend stands for -/
+def toRule4 (fe : Spec.Fe) : Rule4 := ((parseDomain fe.host true).getD .any, fe.path, fe.method, fe.route)
+
+def specList (S : Spec.State) (pos : Nat) : List Rule4 := (S.filter fun fe => fe.pos == pos).map toRule4
+
+theorem parseDomain_mono {h : Bytes} {b : Bool} {d : DomainRule} (hd : parseDomain h b = some d) :
+    parseDomain h true = some d := by
+  simp only [parseDomain] at hd ⊢
+  repeat' split at hd
+  all_goals simp_all
+
+theorem parseDomain_inj {h h' : Bytes} {d : DomainRule} (hd : parseDomain h true = some d)
+    (hd' : parseDomain h' true = some d) : h = h' := by
+  simp only [parseDomain, ↓reduceIte] at hd hd'
+  repeat' split at hd
+  all_goals (repeat' split at hd')
+  all_goals (try simp only [Option.some.injEq, reduceCtorEq] at hd hd')
+  all_goals (try subst hd)
+  all_goals (try simp only [DomainRule.regex.injEq, DomainRule.wildcard.injEq, DomainRule.exact.injEq, reduceCtorEq] at hd')
+  all_goals (first | (subst hd'; rfl) | simp_all)
+
+structure PInv (Hs : List Bytes) (s : Router) (S : Spec.State) : Prop where
+  okAll : ∀ fe ∈ S, (parseDomain fe.host true).isSome = true
+  hosts : ∀ fe ∈ S, fe.pos = 2 → fe.host ∈ Hs
+  pos : ∀ fe ∈ S, fe.pos ≤ 2
+  pre : s.pre = specList S 0
+  post : s.post = specList S 1
+
+theorem sameKey4_toRule4 (S : Spec.State) (hok : ∀ fe ∈ S, (parseDomain fe.host true).isSome = true)
+    (fe : Spec.Fe) (d : DomainRule) (hd : parseDomain fe.host true = some d) (x : Spec.Fe) (hx : x ∈ S)
+    (hpos : x.pos = fe.pos) :
+    sameKey4 d fe.path fe.method (toRule4 x) = Spec.Fe.sameKey fe x := by
+  rw [Bool.eq_iff_iff, sameKey4_iff, feSameKey_iff]
+  have hxok := hok x hx
+  cases hpx : parseDomain x.host true with
+  | none => rw [hpx] at hxok; cases hxok
+  | some dx =>
+    simp only [toRule4, hpx, Option.getD_some]
+    constructor
+    · rintro ⟨h1, h2, h3⟩
+      subst h1
+      exact ⟨hpos.symm, parseDomain_inj hd hpx, h2.symm, h3.symm⟩
+    · rintro ⟨_, h2, h3, h4⟩
+      rw [← h2, hd] at hpx
+      exact ⟨(Option.some.inj hpx).symm, h3.symm, h4.symm⟩
+
+theorem specList_add (S : Spec.State) (hok : ∀ fe ∈ S, (parseDomain fe.host true).isSome = true)
+    (fe : Spec.Fe) (d : DomainRule) (hd : parseDomain fe.host true = some d) (pos : Nat) :
+    specList (Spec.add S fe) pos =
+      if fe.pos = pos then (addList (specList S pos) d fe.path fe.method fe.route).1 else specList S pos := by
+  by_cases hp : fe.pos = pos
+  · subst hp
+    simp only [↓reduceIte, addList, Spec.add]
+    have hany : (specList S fe.pos).any (sameKey4 d fe.path fe.method) = S.any (Spec.Fe.sameKey fe) := by
+      rw [Bool.eq_iff_iff]
+      simp only [specList, List.any_eq_true, List.mem_map, List.mem_filter, beq_iff_eq]
+      constructor
+      · rintro ⟨_, ⟨x, ⟨hx, hpx⟩, rfl⟩, hk⟩
+        exact ⟨x, hx, by rw [← sameKey4_toRule4 S hok fe d hd x hx hpx]; exact hk⟩
+      · rintro ⟨x, hx, hk⟩
+        have hpx : x.pos = fe.pos := ((feSameKey_iff fe x).mp hk).1.symm
+        exact ⟨_, ⟨x, ⟨hx, hpx⟩, rfl⟩, by rw [sameKey4_toRule4 S hok fe d hd x hx hpx]; exact hk⟩
+    rw [hany]
+    split
+    · rfl
+    · simp [specList, List.filter_append, toRule4, hd]
+  · simp only [hp, ↓reduceIte, Spec.add]
+    split
+    · rfl
+    · simp [specList, List.filter_append, hp]
+
+theorem removeFirst_eq_filter (d : DomainRule) (p : PathRule) (m : MethodRule) (l : List Rule4) (h : PPKeys l) :
+    removeFirst l (sameKey4 d p m) = l.filter (fun x => !sameKey4 d p m x) := by
+  induction l with
+  | nil => rfl
+  | cons y t ih =>
+    have h' := h
+    rw [PPKeys, List.pairwise_cons] at h
+    simp only [removeFirst, List.filter_cons]
+    by_cases hy : sameKey4 d p m y = true
+    · simp only [hy, ↓reduceIte, Bool.not_true, Bool.false_eq_true]
+      symm
+      rw [List.filter_eq_self]
+      intro x hx
+      cases hs : sameKey4 d p m x with
+      | false => rfl
+      | true =>
+        have h1 := (sameKey4_iff d p m y).mp hy
+        have h2 := (sameKey4_iff d p m x).mp hs
+        exact absurd ⟨h1.1.trans h2.1.symm, h1.2.1.trans h2.2.1.symm, h1.2.2.trans h2.2.2.symm⟩ (h.1 x hx)
+    · simp only [hy, Bool.false_eq_true, ↓reduceIte, Bool.not_false]
+      rw [ih h.2]
+
+theorem removeList_eq_filter (d : DomainRule) (p : PathRule) (m : MethodRule) (l : List Rule4) (h : PPKeys l) :
+    (removeList l d p m).1 = l.filter (fun x => !sameKey4 d p m x) := by
+  simp only [removeList]
+  split
+  · exact removeFirst_eq_filter d p m l h
+  · next hany =>
+    symm
+    rw [List.filter_eq_self]
+    intro x hx
+    cases hs : sameKey4 d p m x with
+    | false => rfl
+    | true => exact absurd (List.any_eq_true.mpr ⟨x, hx, hs⟩) hany
+
+theorem specList_remove (S : Spec.State) (hok : ∀ fe ∈ S, (parseDomain fe.host true).isSome = true)
+    (fe : Spec.Fe) (d : DomainRule) (hd : parseDomain fe.host true = some d) (pos : Nat) :
+    specList (Spec.remove S fe) pos =
+      if fe.pos = pos then (specList S pos).filter (fun x => !sameKey4 d fe.path fe.method x) else specList S pos := by
+  simp only [Spec.remove, specList, List.filter_filter, List.filter_map]
+  by_cases hp : fe.pos = pos
+  · subst hp
+    simp only [↓reduceIte]
+    congr 1
+    apply List.filter_congr
+    intro x hx
+    by_cases hpx : x.pos = fe.pos
+    · simp only [Function.comp, sameKey4_toRule4 S hok fe d hd x hx hpx, hpx, beq_self_eq_true, Bool.and_true, Bool.true_and]
+    · have : Spec.Fe.sameKey fe x = false := by
+        cases hs : Spec.Fe.sameKey fe x with
+        | false => rfl
+        | true => exact absurd ((feSameKey_iff fe x).mp hs).1.symm hpx
+      simp [hpx, this]
+  · simp only [hp, ↓reduceIte]
+    congr 1
+    apply List.filter_congr
+    intro x hx
+    by_cases hpx : x.pos = pos
+    · have : Spec.Fe.sameKey fe x = false := by
+        cases hs : Spec.Fe.sameKey fe x with
+        | false => rfl
+        | true => exact absurd (((feSameKey_iff fe x).mp hs).1.trans hpx) hp
+      simp [hpx, this]
+    · simp [hpx]
+
+
+theorem mem_spec_remove {S : Spec.State} {fe x : Spec.Fe} (h : x ∈ Spec.remove S fe) : x ∈ S := by
+  simp only [Spec.remove, List.mem_filter] at h; exact h.1
+
+theorem pinv_add (Hs : List Bytes) (s s' : Router) (S : Spec.State) (h : PInv Hs s S) (fe : Spec.Fe)
+    (d : DomainRule) (hd : parseDomain fe.host true = some d) (hpos : fe.pos ≤ 2)
+    (hhost : fe.pos = 2 → fe.host ∈ Hs)
+    (hpre : s'.pre = if fe.pos = 0 then (addList s.pre d fe.path fe.method fe.route).1 else s.pre)
+    (hpost : s'.post = if fe.pos = 1 then (addList s.post d fe.path fe.method fe.route).1 else s.post) :
+    PInv Hs s' (Spec.add S fe) := by
+  refine ⟨?_, ?_, ?_, ?_, ?_⟩
+  · intro x hx; rcases mem_spec_add hx with hx | rfl
+    · exact h.okAll x hx
+    · rw [hd]; rfl
+  · intro x hx hp; rcases mem_spec_add hx with hx | rfl
+    · exact h.hosts x hx hp
+    · exact hhost hp
+  · intro x hx; rcases mem_spec_add hx with hx | rfl
+    · exact h.pos x hx
+    · exact hpos
+  · rw [hpre, specList_add S h.okAll fe d hd 0, h.pre]
+  · rw [hpost, specList_add S h.okAll fe d hd 1, h.post]
+
+theorem pinv_remove (Hs : List Bytes) (s s' : Router) (S : Spec.State) (h : PInv Hs s S) (fe : Spec.Fe)
+    (d : DomainRule) (hd : parseDomain fe.host true = some d)
+    (hk0 : PPKeys s.pre) (hk1 : PPKeys s.post)
+    (hpre : s'.pre = if fe.pos = 0 then (removeList s.pre d fe.path fe.method).1 else s.pre)
+    (hpost : s'.post = if fe.pos = 1 then (removeList s.post d fe.path fe.method).1 else s.post) :
+    PInv Hs s' (Spec.remove S fe) := by
+  refine ⟨fun x hx => h.okAll x (mem_spec_remove hx), fun x hx => h.hosts x (mem_spec_remove hx),
+    fun x hx => h.pos x (mem_spec_remove hx), ?_, ?_⟩
+  · rw [hpre, specList_remove S h.okAll fe d hd 0, ← h.pre]
+    split
+    · exact removeList_eq_filter d _ _ _ hk0
+    · rfl
+  · rw [hpost, specList_remove S h.okAll fe d hd 1, ← h.post]
+    split
+    · exact removeList_eq_filter d _ _ _ hk1
+    · rfl
+
+/-- every operation keeps the pre/post correspondence -/
+theorem pinv_step (o : Oracle) (Hs : List Bytes) (s : Router) (S : Spec.State) (h : PInv Hs s S)
+    (hk0 : PPKeys s.pre) (hk1 : PPKeys s.post) (op : Op)
+    (hmem : (frontOf op).pos ≠ 0 → (frontOf op).pos ≠ 1 → (frontOf op).host ∈ Hs) :
+    PInv Hs (step o s op) (Spec.step S op) := by
+  cases op with
+  | add f =>
+    simp only [frontOf] at hmem
+    simp only [step, addFront, Spec.step, Spec.feOfFront]
+    cases hpath : pathOfFront f with
+    | none => exact h
+    | some p =>
+      cases hdom : parseDomain f.host f.hostOk with
+      | none => exact h
+      | some d =>
+        simp only []
+        have hd := parseDomain_mono hdom
+        by_cases h0 : f.pos = 0
+        · simp only [h0, ↓reduceIte]
+          exact pinv_add Hs s _ S h ⟨0, f.host, p, f.method, routeOfFront f⟩ d hd (by simp) (by simp) (by simp) (by simp)
+        · by_cases h1 : f.pos = 1
+          · simp only [h0, h1, ↓reduceIte]
+            exact pinv_add Hs s _ S h ⟨1, f.host, p, f.method, routeOfFront f⟩ d hd (by simp) (by simp) (by simp) (by simp)
+          · simp only [h0, h1, ↓reduceIte]
+            apply pinv_add Hs s _ S h ⟨2, f.host, p, f.method, routeOfFront f⟩ d hd (by simp) (fun _ => hmem h0 h1)
+            · cases addTree o s.tree f.host p f.method (routeOfFront f) <;> simp
+            · cases addTree o s.tree f.host p f.method (routeOfFront f) <;> simp
+  | remove f =>
+    simp only [frontOf] at hmem
+    simp only [step, removeFront, Spec.step, Spec.feOfFront]
+    cases hpath : pathOfFront f with
+    | none => exact h
+    | some p =>
+      simp only []
+      by_cases h0 : f.pos = 0
+      · simp only [h0, ↓reduceIte]
+        cases hdom : parseDomain f.host f.hostOk with
+        | none => exact h
+        | some d =>
+          simp only []
+          exact pinv_remove Hs s _ S h ⟨0, f.host, p, f.method, routeOfFront f⟩ d (parseDomain_mono hdom) hk0 hk1 (by simp) (by simp)
+      · by_cases h1 : f.pos = 1
+        · simp only [h0, h1, ↓reduceIte]
+          cases hdom : parseDomain f.host f.hostOk with
+          | none => exact h
+          | some d =>
+            simp only []
+            exact pinv_remove Hs s _ S h ⟨1, f.host, p, f.method, routeOfFront f⟩ d (parseDomain_mono hdom) hk0 hk1 (by simp) (by simp)
+        · simp only [h0, h1, ↓reduceIte]
+          cases hdom : parseDomain f.host f.hostOk with
+          | none => exact ⟨h.okAll, h.hosts, h.pos, h.pre, h.post⟩
+          | some d =>
+            simp only []
+            exact pinv_remove Hs s _ S h ⟨2, f.host, p, f.method, routeOfFront f⟩ d (parseDomain_mono hdom) hk0 hk1 (by simp) (by simp)
+
+
+/-! ### pre / post scan = the Spec's first match -/
+
+theorem rule4Matches_toRule4 (o : Oracle) (host path method : Bytes) (fe : Spec.Fe)
+    (hok : (parseDomain fe.host true).isSome = true) :
+    rule4Matches o host path method (toRule4 fe) = Spec.prePostMatch o fe host path method := by
+  cases hd : parseDomain fe.host true with
+  | none => rw [hd] at hok; cases hok
+  | some d => simp [rule4Matches, toRule4, Spec.prePostMatch, hd]
+
+theorem scan_eq_firstOf (o : Oracle) (S : Spec.State) (hok : ∀ fe ∈ S, (parseDomain fe.host true).isSome = true)
+    (pos : Nat) (host path method : Bytes) :
+    scanList o (specList S pos) host path method = Spec.firstOf o S pos host path method := by
+  rw [scanList_eq]
+  induction S with
+  | nil => rfl
+  | cons x t ih =>
+    have ih' := ih (fun fe hfe => hok fe (by simp [hfe]))
+    have hx := rule4Matches_toRule4 o host path method x (hok x (by simp))
+    simp only [specList, Spec.firstOf, List.filter_cons, List.find?_cons] at ih' ⊢
+    by_cases hp : (x.pos == pos) = true
+    · simp only [hp, ↓reduceIte, List.map_cons, List.find?_cons, hx, Bool.true_and]
+      cases hm : Spec.prePostMatch o x host path method with
+      | true => simp [toRule4]
+      | false => simpa using ih'
+    · simp only [hp, Bool.false_eq_true, ↓reduceIte, Bool.false_and]
+      simpa using ih'
+
+
+/-! ### host matching of proper keys -/
+
+def vecE (n : Nat) : List Nat := List.replicate (n + 1) 2
+def vecW (n : Nat) : List Nat := List.replicate n 2 ++ [1]
+
+theorem hostMatch_proper (o : Oracle) (ds : List Bytes) (l : Bytes) :
+    ∀ (qds : List Bytes) (ql : Bytes),
+      Spec.hostMatch o (keySteps ds l) (qSegs qds ql) =
+        if l = [STAR] then (if ds = qds then some (vecW ds.length) else none)
+        else if ds = qds ∧ l = ql then some (vecE ds.length) else none := by
+  induction ds with
+  | nil =>
+    intro qds ql
+    cases qds with
+    | nil =>
+      simp only [keySteps_nil, qSegs, List.map_nil, List.nil_append, Spec.hostMatch]
+      by_cases hl : l = [STAR]
+      · subst hl; simp [vecW]
+      · have : ((false, l) : Seg) ≠ (false, [STAR]) := by simp [hl]
+        simp only [this, ↓reduceIte, hl]
+        by_cases e : l = ql
+        · subst e; simp [Spec.hostMatch, vecE]
+        · have : ((false, l) : Seg) ≠ (false, ql) := by simp [e]
+          simp [this, e]
+    | cons qd qt =>
+      simp only [keySteps_nil, qSegs, List.map_cons, List.cons_append, Spec.hostMatch]
+      by_cases hl : l = [STAR]
+      · subst hl
+        have : (List.map (fun d => ((true, d) : Seg)) qt ++ [(false, ql)]).isEmpty = false := by
+          cases qt <;> rfl
+        simp [this]
+      · have h1 : ((false, l) : Seg) ≠ (false, [STAR]) := by simp [hl]
+        have h2 : ((false, l) : Seg) ≠ (true, qd) := by simp
+        simp [h1, h2, hl]
+  | cons d t ih =>
+    intro qds ql
+    have hne : ((true, d) : Seg) ≠ (false, [STAR]) := by simp
+    cases qds with
+    | nil =>
+      have h2 : ((true, d) : Seg) ≠ (false, ql) := by simp
+      simp only [keySteps_cons, qSegs, List.map_nil, List.nil_append, Spec.hostMatch, hne, h2, ↓reduceIte]
+      by_cases hl : l = [STAR] <;> simp [hl]
+    | cons qd qt =>
+      have := ih qt ql
+      simp only [qSegs] at this
+      simp only [keySteps_cons, qSegs, List.map_cons, List.cons_append, Spec.hostMatch, hne, ↓reduceIte]
+      by_cases e : d = qd
+      · subst e
+        simp only [↓reduceIte, this, List.cons.injEq, true_and, List.length_cons]
+        by_cases hl : l = [STAR]
+        · simp only [hl, ↓reduceIte]
+          by_cases e2 : t = qt <;> simp [e2, vecW, List.replicate_succ]
+        · simp only [hl, ↓reduceIte]
+          by_cases e2 : t = qt ∧ l = ql <;> simp [e2, vecE, List.replicate_succ]
+      · have : ((true, d) : Seg) ≠ (true, qd) := by simp [e]
+        simp only [this, ↓reduceIte, List.cons.injEq, e, false_and]
+        by_cases hl : l = [STAR] <;> simp [hl]
+
+theorem vecLt_W_E (n : Nat) : Spec.vecLt (vecW n) (vecE n) = true := by
+  induction n with
+  | zero => decide
+  | succ k ih => simpa [vecW, vecE, List.replicate_succ, Spec.vecLt] using ih
+
+theorem vecLt_irrefl (v : List Nat) : Spec.vecLt v v = false := by
+  induction v with
+  | nil => rfl
+  | cons a t ih => simp [Spec.vecLt, ih]
+
+theorem vecLt_E_W (n : Nat) : Spec.vecLt (vecE n) (vecW n) = false := by
+  induction n with
+  | zero => decide
+  | succ k ih => simpa [vecW, vecE, List.replicate_succ, Spec.vecLt] using ih
+
+
+/-! ### the most specific host group of the Spec, for regex-free hosts -/
+
+def isK (k : List Bytes × Bytes) (fe : Spec.Fe) : Bool := fe.pos == 2 && decide (keyOf fe.host = k)
+def isE (qds : List Bytes) (ql : Bytes) (fe : Spec.Fe) : Bool := isK (qds, ql) fe && (ql != [STAR])
+def isW (qds : List Bytes) (fe : Spec.Fe) : Bool := isK (qds, [STAR]) fe
+
+theorem treeHostMatch_good (o : Oracle) (fe : Spec.Fe) (hg : GoodName fe.host) (hp : fe.pos = 2)
+    (host : Bytes) (qds : List Bytes) (ql : Bytes) (hq : splitHost host = qSegs qds ql) :
+    Spec.treeHostMatch o fe.host host =
+      if isE qds ql fe then some (vecE qds.length) else if isW qds fe then some (vecW qds.length) else none := by
+  obtain ⟨ds, l, _, _, hk, hs⟩ := good_split hg
+  simp only [Spec.treeHostMatch, hs, hq, hostMatch_proper, isE, isW, isK, hp, hk, beq_self_eq_true, Bool.true_and]
+  by_cases hl : l = [STAR]
+  · subst hl
+    by_cases hd : ds = qds
+    · subst hd
+      by_cases hql : ql = [STAR]
+      · subst hql; simp
+      · have : ¬ [STAR] = ql := fun e => hql e.symm
+        simp [hql, this]
+    · simp [hd]
+  · by_cases hd : ds = qds ∧ l = ql
+    · obtain ⟨rfl, rfl⟩ := hd
+      simp [hl]
+    · have : ¬ (ds, l) = (qds, ql) := by simpa using hd
+      have h2 : ¬ (ds, l) = (qds, [STAR]) := by simp [hl]
+      simp [hl, hd, this, h2]
+
+theorem filterMap_filter_fst {V : Type} (S : List Spec.Fe) (g : Spec.Fe → Option (Spec.Fe × V))
+    (P : Spec.Fe × V → Bool) (Q : Spec.Fe → Bool)
+    (h : ∀ fe ∈ S, match g fe with
+      | some x => x.1 = fe ∧ P x = Q fe
+      | none => Q fe = false) :
+    ((S.filterMap g).filter P).map (·.1) = S.filter Q := by
+  induction S with
+  | nil => rfl
+  | cons a t ih =>
+    have ha := h a (by simp)
+    have iht := ih (fun fe hfe => h fe (by simp [hfe]))
+    simp only [List.filterMap_cons, List.filter_cons]
+    cases hga : g a with
+    | none => rw [hga] at ha; simp only [] at ha; simp [ha, iht]
+    | some x =>
+      rw [hga] at ha; simp only [] at ha
+      simp only [List.filter_cons, ha.2]
+      by_cases hq : Q a = true
+      · simp [hq, ha.1, iht]
+      · simp [hq, iht]
+
+/-- the Spec's most specific host group: the frontends of the exact host if
+    there are any, else those of the wildcard host -/
+theorem bestHostGroup_good (o : Oracle) (S : Spec.State)
+    (hgood : ∀ fe ∈ S, fe.pos = 2 → GoodName fe.host)
+    (host : Bytes) (qds : List Bytes) (ql : Bytes) (hq : splitHost host = qSegs qds ql) :
+    Spec.bestHostGroup o S host = if S.any (isE qds ql) then S.filter (isE qds ql) else S.filter (isW qds) := by
+  let n := qds.length
+  have hg : ∀ fe ∈ S, (if fe.pos = 2 then (Spec.treeHostMatch o fe.host host).map (fe, ·) else none) =
+      if isE qds ql fe then some (fe, vecE n) else if isW qds fe then some (fe, vecW n) else none := by
+    intro fe hfe
+    by_cases hp : fe.pos = 2
+    · simp only [hp, ↓reduceIte, treeHostMatch_good o fe (hgood fe hfe hp) hp host qds ql hq]
+      by_cases h1 : isE qds ql fe = true
+      · simp [h1, n]
+      · by_cases h2 : isW qds fe = true <;> simp [h1, h2, n]
+    · have h1 : isE qds ql fe = false := by simp [isE, isK, hp]
+      have h2 : isW qds fe = false := by simp [isW, isK, hp]
+      simp [hp, h1, h2]
+  have hmem : ∀ y, y ∈ Spec.treeHosts o S host ↔
+      ∃ fe ∈ S, (isE qds ql fe = true ∧ y = (fe, vecE n)) ∨ (isE qds ql fe = false ∧ isW qds fe = true ∧ y = (fe, vecW n)) := by
+    intro y
+    simp only [Spec.treeHosts, List.mem_filterMap]
+    constructor
+    · rintro ⟨fe, hfe, hy⟩
+      rw [hg fe hfe] at hy
+      refine ⟨fe, hfe, ?_⟩
+      by_cases h1 : isE qds ql fe = true
+      · simp only [h1, ↓reduceIte, Option.some.injEq] at hy; exact Or.inl ⟨h1, hy.symm⟩
+      · by_cases h2 : isW qds fe = true
+        · simp only [h1, h2, Bool.false_eq_true, ↓reduceIte, Option.some.injEq] at hy
+          exact Or.inr ⟨by simpa using h1, h2, hy.symm⟩
+        · simp [h1, h2] at hy
+    · rintro ⟨fe, hfe, h | h⟩
+      · exact ⟨fe, hfe, by rw [hg fe hfe]; simp [h.1, h.2]⟩
+      · exact ⟨fe, hfe, by rw [hg fe hfe]; simp [h.1, h.2.1, h.2.2]⟩
+  simp only [Spec.bestHostGroup]
+  by_cases hany : S.any (isE qds ql) = true
+  · simp only [hany, ↓reduceIte]
+    obtain ⟨fe0, hfe0, he0⟩ := List.any_eq_true.mp hany
+    apply filterMap_filter_fst
+    intro fe hfe
+    rw [hg fe hfe]
+    by_cases h1 : isE qds ql fe = true
+    · simp only [h1, ↓reduceIte, true_and]
+      rw [Bool.eq_iff_iff]
+      simp only [Bool.not_eq_eq_eq_not, Bool.not_true, iff_true]
+      rw [← Bool.not_eq_true, List.any_eq_true]
+      rintro ⟨y, hy, hlt⟩
+      obtain ⟨fe', _, h | h⟩ := (hmem y).mp hy
+      · rw [h.2] at hlt; simp [vecLt_irrefl] at hlt
+      · rw [h.2.2] at hlt; simp [vecLt_E_W] at hlt
+    · by_cases h2 : isW qds fe = true
+      · simp only [h1, h2, Bool.false_eq_true, ↓reduceIte, true_and]
+        have : (Spec.treeHosts o S host).any (fun y => Spec.vecLt (vecW n) y.2) = true := by
+          rw [List.any_eq_true]
+          exact ⟨(fe0, vecE n), (hmem _).mpr ⟨fe0, hfe0, Or.inl ⟨he0, rfl⟩⟩, vecLt_W_E n⟩
+        simp [this]
+      · simp [h1, h2]
+  · simp only [hany, Bool.false_eq_true, ↓reduceIte]
+    have hnoE : ∀ fe ∈ S, isE qds ql fe = false := by
+      intro fe hfe
+      cases h : isE qds ql fe with
+      | false => rfl
+      | true => exact absurd (List.any_eq_true.mpr ⟨fe, hfe, h⟩) hany
+    apply filterMap_filter_fst
+    intro fe hfe
+    rw [hg fe hfe]
+    simp only [hnoE fe hfe, Bool.false_eq_true, ↓reduceIte]
+    by_cases h2 : isW qds fe = true
+    · simp only [h2, ↓reduceIte, true_and]
+      rw [Bool.eq_iff_iff]
+      simp only [Bool.not_eq_eq_eq_not, Bool.not_true, iff_true]
+      rw [← Bool.not_eq_true, List.any_eq_true]
+      rintro ⟨y, hy, hlt⟩
+      obtain ⟨fe', hfe', h | h⟩ := (hmem y).mp hy
+      · rw [hnoE fe' hfe'] at h; cases h.1
+      · rw [h.2.2] at hlt; simp [vecLt_irrefl] at hlt
+    · simp [h2]
+
+
+/-! ### the trie leaf of a key is the Spec's group of that key -/
+
+def toRule3 (fe : Spec.Fe) : Rule3 := (fe.path, fe.method, fe.route)
+
+theorem specLeaf_eq (S : Spec.State) (H : Bytes) :
+    specLeaf S H = (S.filter fun fe => fe.pos == 2 && fe.host == H).map toRule3 := rfl
+
+theorem splitKey_inj_good {H H' : Bytes} (hg : GoodName H) (hg' : GoodName H') (h : splitKey H = splitKey H') :
+    H = H' := by
+  obtain ⟨ds, l, _, _, hk, hs⟩ := good_split hg
+  obtain ⟨ds', l', _, _, hk', hs'⟩ := good_split hg'
+  rw [hs, hs'] at h
+  have := keySteps_inj (Option.some.inj h)
+  exact keyOf_inj (by rw [hk, hk', this])
+
+theorem leaf_of_group (Hs : List Bytes) (hgood : ∀ H ∈ Hs, GoodName H) (s : Router) (S : Spec.State)
+    (hI : Inv Hs s S) (hP : PInv Hs s S) (k : List Bytes × Bytes) :
+    (S.any (isK k) = true →
+      ∃ kv H, get s.tree (keySteps k.1 k.2) = some kv ∧ kv.2 = (S.filter (isK k)).map toRule3 ∧
+        (∀ fe ∈ S.filter (isK k), fe.host = H) ∧ S.filter (isK k) ≠ []) ∧
+    (S.any (isK k) = false → get s.tree (keySteps k.1 k.2) = none) := by
+  have hkey : ∀ H ∈ Hs, ∀ ds l, splitKey H = some (keySteps ds l) → keyOf H = (ds, l) := by
+    intro H hH ds l hs
+    obtain ⟨ds', l', _, _, hk, hs'⟩ := good_split (hgood H hH)
+    rw [hs'] at hs
+    rw [hk, keySteps_inj (Option.some.inj hs)]
+  constructor
+  · intro hany
+    obtain ⟨fe0, hfe0, hk0⟩ := List.any_eq_true.mp hany
+    simp only [isK, Bool.and_eq_true, beq_iff_eq, decide_eq_true_eq] at hk0
+    have hH := hP.hosts fe0 hfe0 hk0.1
+    obtain ⟨ds, l, _, _, hk, hs⟩ := good_split (hgood _ hH)
+    have e : (ds, l) = k := by rw [← hk, hk0.2]
+    subst e
+    have hfilter : S.filter (isK (ds, l)) = S.filter (fun fe => fe.pos == 2 && fe.host == fe0.host) := by
+      apply List.filter_congr
+      intro x hx
+      rw [Bool.eq_iff_iff]
+      simp only [isK, Bool.and_eq_true, beq_iff_eq, decide_eq_true_eq]
+      constructor
+      · rintro ⟨h1, h2⟩; exact ⟨h1, keyOf_inj (by rw [h2, hk])⟩
+      · rintro ⟨h1, h2⟩; exact ⟨h1, by rw [h2, hk]⟩
+    have hleaf := hI.leaf fe0.host hH ds l hs
+    rw [specLeaf_eq, ← hfilter] at hleaf
+    have hne : S.filter (isK (ds, l)) ≠ [] := by
+      intro e
+      have : fe0 ∈ S.filter (isK (ds, l)) := by
+        simp only [List.mem_filter, isK, Bool.and_eq_true, beq_iff_eq, decide_eq_true_eq]
+        exact ⟨hfe0, hk0.1, hk0.2⟩
+      rw [e] at this; cases this
+    cases hg : get s.tree (keySteps ds l) with
+    | none =>
+      simp only [leafRules, hg] at hleaf
+      exact absurd (List.map_eq_nil_iff.mp hleaf.symm) hne
+    | some kv =>
+      simp only [leafRules, hg] at hleaf
+      refine ⟨kv, fe0.host, rfl, hleaf, ?_, hne⟩
+      intro fe hfe
+      rw [hfilter] at hfe
+      simp only [List.mem_filter, Bool.and_eq_true, beq_iff_eq] at hfe
+      exact hfe.2.2
+  · intro hany
+    obtain ⟨kds, kl⟩ := k
+    by_cases hex : ∃ H ∈ Hs, splitKey H = some (keySteps kds kl)
+    · obtain ⟨H, hH, hs⟩ := hex
+      have hleaf := hI.leaf H hH kds kl hs
+      have hnil : specLeaf S H = [] := by
+        rw [specLeaf_eq, List.map_eq_nil_iff, List.filter_eq_nil_iff]
+        intro fe hfe hc
+        simp only [Bool.and_eq_true, beq_iff_eq] at hc
+        have : isK (kds, kl) fe = true := by
+          simp only [isK, Bool.and_eq_true, beq_iff_eq, decide_eq_true_eq]
+          exact ⟨hc.1, by rw [hc.2]; exact hkey H hH kds kl hs⟩
+        have h2 : S.any (isK (kds, kl)) = true := List.any_eq_true.mpr ⟨fe, hfe, this⟩
+        rw [hany] at h2; cases h2
+      rw [hnil] at hleaf
+      exact (get_none_iff_leafRules hI kds kl).mpr hleaf
+    · exact hI.foreign kds kl (fun H hH e => hex ⟨H, hH, e⟩)
+
+
+/-! ### rank selection = the Spec's best candidates of one host -/
+
+theorem rank_toRule3 (o : Oracle) (path method : Bytes) (fe : Spec.Fe) :
+    Spec.rank o fe path method = ruleRank o path method (toRule3 fe) := by
+  rw [ruleRank_eq_spec o path method (toRule3 fe) fe.host]
+  rfl
+
+theorem select_bestIn (o : Oracle) (G : List Spec.Fe) (path method : Bytes) :
+    (selectLeaf o (G.map toRule3) path method = none ∧ Spec.bestIn o G path method = []) ∨
+    (∃ r, selectLeaf o (G.map toRule3) path method = some r ∧ r ∈ Spec.bestIn o G path method) := by
+  rcases select_good o path method (G.map toRule3) with ⟨hn, hall⟩ | ⟨r, hr, k, hs, hk, hmax⟩
+  · left
+    refine ⟨hn, ?_⟩
+    have : G.filterMap (fun fe => (Spec.rank o fe path method).map (fe, ·)) = [] := by
+      rw [List.filterMap_eq_nil_iff]
+      intro fe hfe
+      rw [rank_toRule3, hall (toRule3 fe) (List.mem_map_of_mem hfe)]
+      rfl
+    simp [Spec.bestIn, this]
+  · right
+    obtain ⟨fe, hfe, rfl⟩ := List.mem_map.mp hr
+    refine ⟨fe.route, hs, ?_⟩
+    simp only [Spec.bestIn, List.mem_map, List.mem_filter, List.mem_filterMap]
+    refine ⟨(fe, k), ⟨⟨fe, hfe, by rw [rank_toRule3, hk]; rfl⟩, ?_⟩, rfl⟩
+    rw [Bool.not_eq_eq_eq_not, Bool.not_true, ← Bool.not_eq_true, List.any_eq_true]
+    rintro ⟨y, hy, hlt⟩
+    simp only [List.mem_filterMap] at hy
+    obtain ⟨fe', hfe', hy⟩ := hy
+    rw [rank_toRule3] at hy
+    cases hrk : ruleRank o path method (toRule3 fe') with
+    | none => rw [hrk] at hy; cases hy
+    | some kc =>
+      rw [hrk] at hy
+      simp only [Option.map_some, Option.some.injEq] at hy
+      subst hy
+      have := hmax (toRule3 fe') (List.mem_map_of_mem hfe') kc hrk
+      rw [rankGt_eq_specLt] at this
+      simp only [] at hlt
+      rw [this] at hlt; cases hlt
+
+theorem hostsOf_single (G : List Spec.Fe) (H : Bytes) (hall : ∀ fe ∈ G, fe.host = H) (hne : G ≠ []) :
+    Spec.hostsOf G = [H] := by
+  induction G with
+  | nil => exact absurd rfl hne
+  | cons fe t ih =>
+    have hfe := hall fe (by simp)
+    simp only [Spec.hostsOf]
+    by_cases ht : t = []
+    · subst ht; simp [Spec.hostsOf, hfe]
+    · rw [ih (fun x hx => hall x (by simp [hx])) ht, hfe]; simp
+
+theorem treeRoute_of_group (o : Oracle) (S : Spec.State) (host path method : Bytes) (G : List Spec.Fe)
+    (hG : Spec.bestHostGroup o S host = G) (H : Bytes) (hall : ∀ fe ∈ G, fe.host = H) :
+    Spec.treeRoute o S host path method =
+      if G = [] then [none] else
+        match Spec.bestIn o G path method with
+        | [] => [none]
+        | l => l.map some := by
+  simp only [Spec.treeRoute, hG]
+  by_cases hne : G = []
+  · subst hne; simp [Spec.hostsOf]
+  · have hf : G.filter (fun fe => fe.host == H) = G := by
+      rw [List.filter_eq_self]; intro fe hfe; simp [hall fe hfe]
+    simp only [hne, ↓reduceIte, hostsOf_single G H hall hne, List.flatMap_cons, List.flatMap_nil, List.append_nil, hf]
+    cases Spec.bestIn o G path method <;> rfl
+
+
+theorem orElse_self {α : Type} (x : Option α) : (x.orElse fun _ => x) = x := by cases x <;> rfl
+
+/-- the answer of one leaf is admitted by the Spec for the group `G` that fills it -/
+theorem leaf_admissible (o : Oracle) (S : Spec.State) (host path method : Bytes) (G : List Spec.Fe)
+    (hG : Spec.bestHostGroup o S host = G) (H : Bytes) (hall : ∀ fe ∈ G, fe.host = H) (hne : G ≠ []) :
+    selectLeaf o (G.map toRule3) path method ∈ Spec.treeRoute o S host path method := by
+  rw [treeRoute_of_group o S host path method G hG H hall]
+  simp only [hne, ↓reduceIte]
+  rcases select_bestIn o G path method with ⟨h1, h2⟩ | ⟨r, h1, h2⟩
+  · rw [h1, h2]; simp
+  · rw [h1]
+    cases hb : Spec.bestIn o G path method with
+    | nil => rw [hb] at h2; cases h2
+    | cons a t => rw [hb] at h2; simp only [List.mem_map]; exact ⟨r, h2, rfl⟩
+
+/-- tree part: the trie lookup followed by the rank selection is admitted by
+    the Spec's `treeRoute` of the configured set -/
+theorem tree_admissible (o : Oracle) (Hs : List Bytes) (hgood : ∀ H ∈ Hs, GoodName H) (s : Router) (S : Spec.State)
+    (hI : Inv Hs s S) (hP : PInv Hs s S)
+    (host : Bytes) (qds : List Bytes) (ql : Bytes) (hq : splitHost host = qSegs qds ql) (path method : Bytes) :
+    lookupTree o s.tree host path method ∈ Spec.treeRoute o S host path method := by
+  have hgoodS : ∀ fe ∈ S, fe.pos = 2 → GoodName fe.host := fun fe hfe hp => hgood _ (hP.hosts fe hfe hp)
+  have hG := bestHostGroup_good o S hgoodS host qds ql hq
+  simp only [lookupTree, domainLookup, hq, lookup_eq o.seg qds ql s.tree hI.wf]
+  have lgE := leaf_of_group Hs hgood s S hI hP (qds, ql)
+  have lgW := leaf_of_group Hs hgood s S hI hP (qds, [STAR])
+  by_cases hanyE : S.any (isE qds ql) = true
+  · rw [if_pos hanyE] at hG
+    obtain ⟨fe0, hfe0, he0⟩ := List.any_eq_true.mp hanyE
+    simp only [isE, Bool.and_eq_true, bne_iff_ne, ne_eq] at he0
+    have hql : (ql != [STAR]) = true := by simpa using he0.2
+    have hfil : S.filter (isE qds ql) = S.filter (isK (qds, ql)) := by
+      apply List.filter_congr; intro x _; simp [isE, hql]
+    obtain ⟨kv, H, hget, hkv, hall, hne⟩ := lgE.1 (List.any_eq_true.mpr ⟨fe0, hfe0, he0.1⟩)
+    simp only [] at hget
+    rw [hfil] at hG
+    simp only [hget, Option.orElse]
+    rw [hkv]
+    exact leaf_admissible o S host path method _ hG H hall hne
+  · rw [if_neg hanyE] at hG
+    have hfil : S.filter (isW qds) = S.filter (isK (qds, [STAR])) := rfl
+    have horelse : ((get s.tree (keySteps qds ql)).orElse fun _ => get s.tree (keySteps qds [STAR])) =
+        get s.tree (keySteps qds [STAR]) := by
+      by_cases hql : ql = [STAR]
+      · subst hql; exact orElse_self _
+      · have : S.any (isK (qds, ql)) = false := by
+          rw [← Bool.not_eq_true, List.any_eq_true]
+          rintro ⟨fe, hfe, hk⟩
+          apply hanyE
+          exact List.any_eq_true.mpr ⟨fe, hfe, by simp [isE, hk, hql]⟩
+        have := lgE.2 this
+        simp only [] at this
+        rw [this]; rfl
+    rw [horelse]
+    by_cases hanyW : S.any (isK (qds, [STAR])) = true
+    · obtain ⟨kv, H, hget, hkv, hall, hne⟩ := lgW.1 hanyW
+      simp only [] at hget
+      simp only [hget]
+      rw [hkv]
+      exact leaf_admissible o S host path method _ (by rw [hG, hfil]) H hall hne
+    · have hW : S.any (isK (qds, [STAR])) = false := by simpa using hanyW
+      have hget := lgW.2 hW
+      simp only [] at hget
+      simp only [hget]
+      have hnil : S.filter (isW qds) = [] := by
+        rw [hfil, List.filter_eq_nil_iff]
+        intro fe hfe hk
+        exact hanyW (List.any_eq_true.mpr ⟨fe, hfe, hk⟩)
+      rw [treeRoute_of_group o S host path method [] (by rw [hG, hnil]) [] (by intro fe hfe; cases hfe)]
+      simp
+
+
+/-! ### histories -/
+
+/-- a tree frontend's hostname is a plain (regex-free, non-degenerate) name:
+    not empty, no leading dot, no `/` — `*` labels are allowed -/
+def GoodFront (f : Front) : Prop := f.pos ≠ 0 → f.pos ≠ 1 → GoodName f.host
+
+def GoodHistory (ops : List Op) : Prop := ∀ op ∈ ops, GoodFront (frontOf op)
+
+theorem goodFront_proper {f : Front} (h : GoodFront f) : ProperFront f := by
+  intro h0 h1
+  have hg := h h0 h1
+  obtain ⟨ds, l, _, _, _, hs⟩ := good_split hg
+  refine ⟨⟨ds, l, hs⟩, ?_⟩
+  have : ¬ SLASH ∈ f.host := hg.2.2
+  simpa using this
+
+theorem treeHosts_good {ops : List Op} (hg : GoodHistory ops) : ∀ H ∈ treeHosts ops, GoodName H := by
+  intro H hH
+  simp only [treeHosts, List.mem_map, List.mem_filter, Bool.and_eq_true, bne_iff_ne, ne_eq] at hH
+  obtain ⟨op, ⟨hop, h0, h1⟩, rfl⟩ := hH
+  exact hg op hop h0 h1
+
+theorem goodHistory_proper {ops : List Op} (hg : GoodHistory ops) : ProperHistory ops :=
+  ⟨fun op hop => goodFront_proper (hg op hop),
+   fun H hH H' hH' e => splitKey_inj_good (treeHosts_good hg H hH) (treeHosts_good hg H' hH') e⟩
+
+theorem pinv_init (Hs : List Bytes) : PInv Hs Router.new [] :=
+  ⟨fun fe h => (by cases h), fun fe h => (by cases h), fun fe h => (by cases h), rfl, rfl⟩
+
+theorem both_run (o : Oracle) (Hs : List Bytes)
+    (hinj : ∀ H ∈ Hs, ∀ H' ∈ Hs, splitKey H = splitKey H' → H = H') (ops : List Op) :
+    ∀ (s : Router) (S : Spec.State), Inv Hs s S → PInv Hs s S →
+      (∀ op ∈ ops, ProperFront (frontOf op)) →
+      (∀ op ∈ ops, (frontOf op).pos ≠ 0 → (frontOf op).pos ≠ 1 → (frontOf op).host ∈ Hs) →
+      Inv Hs (ops.foldl (step o) s) (ops.foldl Spec.step S) ∧ PInv Hs (ops.foldl (step o) s) (ops.foldl Spec.step S) := by
+  induction ops with
+  | nil => intro s S h1 h2 _ _; exact ⟨h1, h2⟩
+  | cons op t ih =>
+    intro s S h1 h2 hp hm
+    exact ih _ _ (inv_step o Hs hinj s S h1 op (hp op (by simp)) (hm op (by simp)))
+      (pinv_step o Hs s S h2 h1.pre h1.post op (hm op (by simp)))
+      (fun x hx => hp x (by simp [hx])) (fun x hx => hm x (by simp [hx]))
+
+/-- the two invariants after a good history, for any superset `Hs` of its tree hosts -/
+theorem both_of_good (o : Oracle) (ops : List Op) (hg : GoodHistory ops) (Hs : List Bytes)
+    (hgood : ∀ H ∈ Hs, GoodName H) (hsub : ∀ H ∈ treeHosts ops, H ∈ Hs) :
+    Inv Hs (run o ops) (Spec.run ops) ∧ PInv Hs (run o ops) (Spec.run ops) :=
+  both_run o Hs (fun H hH H' hH' e => splitKey_inj_good (hgood H hH) (hgood H' hH') e) ops _ _
+    (inv_init _) (pinv_init _) (fun op hop => goodFront_proper (hg op hop))
+    (fun op hop h0 h1 => hsub _ (mem_treeHosts hop h0 h1))
+
+theorem route_admissible (o : Oracle) (Hs : List Bytes) (hgood : ∀ H ∈ Hs, GoodName H) (s : Router) (S : Spec.State)
+    (hI : Inv Hs s S) (hP : PInv Hs s S) (host : Bytes) (hh : GoodHost host) (path method : Bytes) :
+    Spec.admissible (lookupRoute o s host path method) (Spec.route o S host path method) = true := by
+  obtain ⟨qds, ql, _, _, _, hq⟩ := host_split hh
+  have hpre := scan_eq_firstOf o S hP.okAll 0 host path method
+  have hpost := scan_eq_firstOf o S hP.okAll 1 host path method
+  rw [← hP.pre] at hpre
+  rw [← hP.post] at hpost
+  have htree := tree_admissible o Hs hgood s S hI hP host qds ql hq path method
+  simp only [Spec.admissible, lookupRoute, Spec.route, hpre, hpost, List.contains_iff_mem]
+  cases hf : Spec.firstOf o S 0 host path method with
+  | some r => simp
+  | none =>
+    simp only [List.mem_map]
+    refine ⟨_, htree, ?_⟩
+    cases lookupTree o s.tree host path method <;> rfl
+
+
+/-- "the frontend of the operation is irrelevant for the request": a pre/post
+    rule that does not match the request, or a tree frontend whose host
+    pattern does not match the request's host (the F30 caveat: a tree frontend
+    that matches the host but not the path is *not* irrelevant, it may create
+    or delete the most specific host group) -/
+def FrontIrrelevant (o : Oracle) (f : Front) (host path method : Bytes) : Prop :=
+  if f.pos = 0 ∨ f.pos = 1 then
+    ∀ p d, pathOfFront f = some p → parseDomain f.host f.hostOk = some d →
+      rule4Matches o host path method (d, p, f.method, routeOfFront f) = false
+  else Spec.treeHostMatch o f.host host = none
+
+
+
+theorem rule4Matches_key (o : Oracle) (host path method : Bytes) (x : Rule4) (d : DomainRule) (p : PathRule)
+    (m : MethodRule) (r : Route) (hk : sameKey4 d p m x = true) :
+    rule4Matches o host path method x = rule4Matches o host path method (d, p, m, r) := by
+  obtain ⟨h1, h2, h3⟩ := (sameKey4_iff d p m x).mp hk
+  simp [rule4Matches, h1, h2, h3]
+
+theorem irrelevant_keys {o : Oracle} {f : Front} {host : Bytes} {qds : List Bytes} {ql : Bytes}
+    (hg : GoodName f.host) (hq : splitHost host = qSegs qds ql)
+    (hno : Spec.treeHostMatch o f.host host = none) {ds : List Bytes} {l : Bytes}
+    (hk : keyOf f.host = (ds, l)) : (qds, ql) ≠ (ds, l) ∧ (qds, [STAR]) ≠ (ds, l) := by
+  have h := treeHostMatch_good o ⟨2, f.host, .pfx [], none, .deny⟩ hg rfl host qds ql hq
+  simp only [] at h
+  rw [hno] at h
+  have hW : isW qds ⟨2, f.host, .pfx [], none, .deny⟩ = false := by
+    cases hw : isW qds ⟨2, f.host, .pfx [], none, .deny⟩ with
+    | false => rfl
+    | true => rw [hw] at h; split at h <;> cases h
+  have hE : isE qds ql ⟨2, f.host, .pfx [], none, .deny⟩ = false := by
+    cases he : isE qds ql ⟨2, f.host, .pfx [], none, .deny⟩ with
+    | false => rfl
+    | true => rw [he] at h; cases h
+  simp only [isW, isK, beq_self_eq_true, Bool.true_and, decide_eq_false_iff_not, hk] at hW
+  simp only [isE, isK, beq_self_eq_true, Bool.true_and, hk, Bool.and_eq_false_imp, decide_eq_true_eq,
+    bne_eq_false_iff_eq] at hE
+  refine ⟨?_, fun e => hW e.symm⟩
+  intro e
+  have := hE e.symm
+  subst this
+  exact hW e.symm
+
+
+instance (f : Front) : Decidable (GoodFront f) := by unfold GoodFront; exact inferInstance
+instance (ops : List Op) : Decidable (GoodHistory ops) := by unfold GoodHistory; exact inferInstance
+
 end Sozu.Router
